@@ -536,7 +536,7 @@ def search_histories(ctx, n, viol):
         for step in range(int(rng.randint(1, 6))):
             kind = str(rng.choice(["period", "mode_no", "model", "inplace_anis", "inplace_len", "inplace_angles", "update_same_model",
                                    "update_seed_period", "odd", "inplace_lenlist", "inplace_lenlist", "inplace_intscale_list",
-                                   "inplace_anis_elem", "inplace_angles_elem"]))
+                                   "inplace_anis_elem", "inplace_angles_elem", "period_inplace"]))
             if kind == "inplace_intscale_list" and TAGS[tag][0] not in ("Gaussian", "Exponential", "Matern"):
                 kind = "inplace_lenlist"        # per-axis integral scales only where the integral scale is a plain multiple of the length scale
             g = srf.generator
@@ -546,6 +546,15 @@ def search_histories(ctx, n, viol):
             new = dict(period=period, mno=mno, tag=tag, anis=anis, angles=angles, len_scale=None, bad=None, sub=None, lenlist=None)
             if kind == "period":
                 new["period"] = rnd_period(rng, dim)
+            elif kind == "period_inplace":
+                # the period is changed THROUGH the array the getter returns: `g.period *= f` / `p = g.period; p[i] = v; g.period = p`
+                if rng.rand() < 0.5:
+                    fct = float(rng.choice([1.5, 0.5, 2.0]))
+                    new["period"], new["elem"] = [float(x) * fct for x in np.atleast_1d(period)], ("imul", fct)
+                else:
+                    i_el = int(rng.randint(dim))
+                    np_ = [float(x) for x in np.atleast_1d(period)]; np_[i_el] = rnd_period(rng, dim)[i_el]
+                    new["period"], new["elem"] = np_, ("item", i_el, np_[i_el])
             elif kind == "mode_no":
                 new["mno"] = rnd_mno(rng, dim)
             elif kind == "model":
@@ -609,6 +618,14 @@ def search_histories(ctx, n, viol):
             try:
                 if kind == "period":
                     period = new["period"]; g.period = period
+                elif kind == "period_inplace":
+                    period = new["period"]
+                    if new["elem"][0] == "imul":
+                        g.period *= new["elem"][1]
+                    else:
+                        p_arr = g.period
+                        p_arr[new["elem"][1]] = new["elem"][2]
+                        g.period = p_arr
                 elif kind == "mode_no":
                     mno = new["mno"]; g.mode_no = mno
                 elif kind == "model":
